@@ -626,6 +626,16 @@ impl FdlActiveStation {
         self.mark_bus_activity(now);
     }
 
+    /// Account for data that was dropped from the receive buffer without being delivered.
+    ///
+    /// The PHY discards undecodable data on its own.  `pending_bytes` must not stay above the
+    /// amount of data that is still buffered, or bus activity that follows would go unnoticed.
+    fn sync_pending_bytes(&mut self, now: crate::time::Instant, phy: &mut impl ProfibusPhy) {
+        self.pending_bytes = self
+            .pending_bytes
+            .min(phy.poll_pending_received_bytes(now));
+    }
+
     /// Check whether the time to respond has passed without initiation of a response.
     fn check_slot_expired(&mut self, now: crate::time::Instant) -> bool {
         // We have two situations:
@@ -785,6 +795,7 @@ impl FdlActiveStation {
         if let Some(res) = received {
             return Ok(res);
         }
+        self.sync_pending_bytes(now, phy);
 
         if self.check_slot_expired(now) {
             log::trace!("No reply from #{poll_address}");
@@ -841,7 +852,7 @@ impl FdlActiveStation {
         }
 
         // Handle received telegrams
-        phy.receive_all_telegrams(now, |telegram, is_last_telegram| {
+        let res = phy.receive_all_telegrams(now, |telegram, is_last_telegram| {
             self.mark_rx(now);
 
             // This unusual construct is needed to catch situations where multiple telegrams are
@@ -892,7 +903,9 @@ impl FdlActiveStation {
                 }
                 _ => PollDone::waiting_for_bus(),
             }
-        }).unwrap_or(PollDone::waiting_for_bus())
+        });
+        self.sync_pending_bytes(now, phy);
+        res.unwrap_or(PollDone::waiting_for_bus())
     }
 
     fn handle_telegram(
@@ -1012,12 +1025,13 @@ impl FdlActiveStation {
             return self.mark_tx(now, tx_res.bytes_sent());
         }
 
-        phy.receive_all_telegrams(now, |telegram, is_last_telegram| {
+        let res = phy.receive_all_telegrams(now, |telegram, is_last_telegram| {
             self.mark_rx(now);
 
             self.handle_telegram(now, telegram, is_last_telegram)
-        })
-        .unwrap_or(PollDone::waiting_for_bus())
+        });
+        self.sync_pending_bytes(now, phy);
+        res.unwrap_or(PollDone::waiting_for_bus())
     }
 
     #[must_use = "poll done marker"]
@@ -1240,6 +1254,7 @@ impl FdlActiveStation {
                 }
             })
             .unwrap_or(Ok(None));
+        self.sync_pending_bytes(now, phy);
 
         match reply_events {
             Err(d) => {
@@ -1399,7 +1414,7 @@ impl FdlActiveStation {
         }
 
         let mut first_in = true;
-        phy.receive_all_telegrams(now, |telegram, is_last_telegram| {
+        let res = phy.receive_all_telegrams(now, |telegram, is_last_telegram| {
             self.mark_rx(now);
 
             // Only check and transition to ActiveIdle on the first telegram.
@@ -1425,8 +1440,9 @@ impl FdlActiveStation {
                 first_in = false;
             }
             self.handle_telegram(now, telegram, is_last_telegram)
-        })
-        .unwrap_or(PollDone::waiting_for_bus())
+        });
+        self.sync_pending_bytes(now, phy);
+        res.unwrap_or(PollDone::waiting_for_bus())
     }
 
     /// Poll the bus with a single active application.
